@@ -179,4 +179,578 @@ theorem releaseAll_conserve (w : World) (cs : List Chunk) : Conserve w cs (relea
   rw [wres_releaseAll]
   simp
 
+/-! ## per-function conservation -/
+
+theorem csum_setLast {cs : List Chunk} {c : Chunk} (k : Bool) (f : Nat) (c' : Chunk)
+    (hl : cs.getLast? = some c) : csum k f (setLast cs c') = csum k f cs - cres k f c + cres k f c' := by
+  conv => rhs; rw [split_last hl]
+  simp only [setLast, csum_append, csum_cons, csum_nil]
+  omega
+
+theorem csum_pushChunk (k : Bool) (f : Nat) (q : Cq) (c : Chunk) (n : Nat) :
+    csum k f (pushChunk q c n).chunks = csum k f q.chunks + cres k f c := by
+  simp [pushChunk]
+
+/-- a step on one queue conserves -/
+def CStep (w : World) (q : Cq) (r : World × Cq) : Prop := Conserve w q.chunks r.1 r.2.chunks
+
+theorem CStep.mk' {w : World} {q : Cq} {w' : World} {q' : Cq} (h : Conserve w q.chunks w' q'.chunks) :
+    CStep w q (w', q') := h
+
+theorem appendMemExtend_csum {q q' : Cq} {d : Bytes} (h : appendMemExtend q d = some q') (k : Bool) (f : Nat) :
+    csum k f q'.chunks = csum k f q.chunks := by
+  unfold appendMemExtend at h
+  split at h
+  · cases h; rfl
+  · split at h
+    · rename_i data off cap hl
+      split at h
+      · cases h
+        simp only
+        rw [csum_setLast k f _ hl]
+        simp
+      · cases h
+    · cases h
+
+theorem appendMem_res (w : World) (q : Cq) (d : Bytes) : CStep w q (appendMem w q d) := by
+  unfold appendMem
+  split
+  · rename_i q' h
+    split at h
+    · exact Conserve.of_csum (SameRes.refl w) (appendMemExtend_csum h)
+    · cases h
+  · exact Conserve.of_csum (acquire_res w _) fun k f => by rw [csum_pushChunk]; simp
+
+theorem appendMemMin_res (w : World) (q : Cq) (d : Bytes) : CStep w q (appendMemMin w q d) := by
+  unfold appendMemMin
+  split
+  · rename_i q' h
+    split at h
+    · exact Conserve.of_csum (SameRes.refl w) (appendMemExtend_csum h)
+    · cases h
+  · exact Conserve.of_csum (SameRes.refl w) fun k f => by rw [csum_pushChunk]; simp
+
+theorem appendBuffer_res (w : World) (q : Cq) (d : Bytes) : CStep w q (appendBuffer w q d) := by
+  unfold appendBuffer
+  split
+  · rename_i q' h
+    split at h
+    · exact Conserve.of_csum (SameRes.refl w) (appendMemExtend_csum h)
+    · cases h
+  · exact Conserve.of_csum (acquire_res w _) fun k f => by rw [csum_pushChunk]; simp
+
+theorem appendBufferOpen_res (w : World) (q : Cq) (d : Bytes) : CStep w q (appendBufferOpen w q d) := by
+  unfold appendBufferOpen
+  exact Conserve.of_csum (acquire_res w _) fun k f => by rw [csum_pushChunk]; simp
+
+theorem release_mem_res (w : World) (d : Bytes) (off cap : Nat) : SameRes w (release w (.mem d off cap)) := by
+  intro f
+  have h0 := wres_release false w (.mem d off cap) f
+  have h1 := wres_release true w (.mem d off cap) f
+  simp only [wres, cres_mem, Int.sub_zero, Bool.false_eq_true, if_false, if_true] at h0 h1
+  exact ⟨h0, h1⟩
+
+theorem useExisting_csum {q : Cq} {old : Bytes} {off cap : Nat} (data : Bytes)
+    (hl : q.chunks.getLast? = some (.mem old off cap)) (k : Bool) (f : Nat) :
+    csum k f (useExisting q old off cap data).chunks = csum k f q.chunks := by
+  unfold useExisting
+  dsimp only
+  split
+  · rfl
+  · simp only
+    rw [csum_setLast k f _ hl]
+    simp
+
+theorem useNew_res (w : World) (q : Cq) (cap : Nat) (data : Bytes) : CStep w q (useNew w q cap data) := by
+  unfold useNew
+  dsimp only
+  split
+  · exact CStep.mk' (Conserve.of_csum (release_mem_res w _ _ _) fun _ _ => rfl)
+  · split
+    · rename_i old off pcap hl
+      split
+      · exact CStep.mk' (Conserve.of_csum (SameRes.refl w) fun k f => by rw [csum_pushChunk]; simp)
+      · exact CStep.mk' (Conserve.of_csum (release_mem_res w _ _ _) fun k f => by
+          simp only; rw [csum_setLast k f _ hl]; simp)
+    · exact CStep.mk' (Conserve.of_csum (SameRes.refl w) fun k f => by rw [csum_pushChunk]; simp)
+
+theorem getUseMemory_res (w : World) (q : Cq) (req : Nat) (data : Bytes) :
+    CStep w q ((getUseMemory w q req data).1, (getUseMemory w q req data).2.1) := by
+  unfold getUseMemory
+  split
+  · rename_i old off cap hfit
+    exact Conserve.of_csum (SameRes.refl w) (useExisting_csum data (lastMemFits_some hfit))
+  · split
+    rename_i w' cap ha
+    split
+    rename_i w'' q' hu
+    have hs := acquire_res w (memReq w req)
+    rw [ha] at hs
+    have h := useNew_res w' q cap data
+    rw [hu] at h
+    exact (hs.conserve q.chunks).trans h
+
+theorem appendFile_res (w : World) (q : Cq) (fid off len : Nat) (fd : Bool) :
+    CStep w q (appendFile w q fid off len fd) := by
+  unfold appendFile
+  split
+  · refine CStep.mk' fun k f => ?_
+    rw [csum_pushChunk, cres_file]
+    cases fd <;> cases k <;> simp [wres_openFd, Fd.isOpen] <;> split <;> omega
+  · exact Conserve.refl w q.chunks
+
+theorem appendChunkqueue_res (w : World) (dest src : Cq) :
+    Conserve w (dest.chunks ++ src.chunks) w
+      ((appendChunkqueue dest src).1.chunks ++ (appendChunkqueue dest src).2.chunks) := by
+  unfold appendChunkqueue
+  split
+  · exact Conserve.refl w _
+  · intro k f; simp
+
+theorem mwLoop_res (w : World) (cs : List Chunk) (n : Nat) :
+    Conserve w cs (mwLoop w cs n).1 (mwLoop w cs n).2 := by
+  induction cs generalizing w n with
+  | nil => exact Conserve.refl w []
+  | cons c rest ih =>
+    simp only [mwLoop]
+    split
+    · have h1 : Conserve w ([c] ++ rest) (release w c) ([] ++ rest) := (release_conserve w c).frame_right rest
+      exact h1.trans (ih (release w c) (n - c.rem))
+    · refine Conserve.of_csum (SameRes.refl w) fun k f => ?_
+      cases c <;> simp [Chunk.adv, cres_file]
+
+theorem markWritten_res (w : World) (q : Cq) (n : Nat) : CStep w q (markWritten w q n) :=
+  mwLoop_res w q.chunks n
+
+theorem rfLoop_res (w : World) (cs : List Chunk) : Conserve w cs (rfLoop w cs).1 (rfLoop w cs).2 := by
+  induction cs generalizing w with
+  | nil => exact Conserve.refl w []
+  | cons c rest ih =>
+    simp only [rfLoop]
+    split
+    · have h1 : Conserve w ([c] ++ rest) (release w c) ([] ++ rest) := (release_conserve w c).frame_right rest
+      exact h1.trans (ih (release w c))
+    · exact Conserve.refl w _
+
+theorem removeFinished_res (w : World) (q : Cq) : CStep w q (removeFinished w q) := rfLoop_res w q.chunks
+
+theorem reLoop_res (w : World) (c : Chunk) (cs : List Chunk) :
+    Conserve w (c :: cs) (reLoop w c cs).1 (reLoop w c cs).2 := by
+  fun_induction reLoop w c cs with
+  | case1 w c => exact Conserve.refl w _
+  | case2 w c n h0 =>
+    have := ((release_conserve w n).frame_left [c])
+    simpa using this
+  | case3 w c n h0 m rest' w' t heq ih =>
+    rw [heq] at ih
+    have h1 : Conserve w ([c] ++ ([n] ++ (m :: rest'))) (release w n) ([c] ++ ([] ++ (m :: rest'))) :=
+      ((release_conserve w n).frame_right (m :: rest')).frame_left [c]
+    have h2 : Conserve (release w n) ([c] ++ (m :: rest')) w' ([c] ++ t) := ih.frame_left [c]
+    exact h1.trans h2
+  | case4 w c n rest h0 w' t heq ih =>
+    rw [heq] at ih
+    exact ih.frame_left [c]
+
+theorem removeEmpty_res (w : World) (q : Cq) : CStep w q (removeEmpty w q) := by
+  unfold removeEmpty
+  split
+  rename_i w1 cs1 h1
+  have hf := rfLoop_res w q.chunks
+  rw [h1] at hf
+  split
+  · exact hf
+  · rename_i c rest
+    split
+    rename_i w2 cs2 h2
+    have hr := reLoop_res w1 c rest
+    rw [h2] at hr
+    exact hf.trans hr
+
+theorem compactMemOffset_csum (q : Cq) (k : Bool) (f : Nat) :
+    csum k f (compactMemOffset q).chunks = csum k f q.chunks := by
+  unfold compactMemOffset
+  split
+  · rename_i d off cap rest hc
+    split
+    · rfl
+    · simp [hc]
+  · rfl
+
+theorem cmLoop_res (w : World) (data : Bytes) (off cap : Nat) (cs : List Chunk) (need : Nat) :
+    Conserve w cs (cmLoop w data off cap cs need).1 (cmLoop w data off cap cs need).2 := by
+  fun_induction cmLoop w data off cap cs need with
+  | case1 w data cap need => exact Conserve.of_csum (SameRes.refl w) fun k f => by simp
+  | case2 w data cap c rest => exact Conserve.of_csum (SameRes.refl w) fun k f => by simp
+  | case3 w data cap rest need hn d2 off2 cap2 l2 hgt =>
+    exact Conserve.of_csum (SameRes.refl w) fun k f => by simp
+  | case4 w data cap rest need hn d2 off2 cap2 l2 hle ih =>
+    have h1 : Conserve w ([.mem d2 off2 cap2] ++ rest) (release w (.mem d2 off2 cap2)) ([] ++ rest) :=
+      (release_conserve w _).frame_right rest
+    exact h1.trans ih
+  | case5 w data cap c rest need hn hc => exact Conserve.of_csum (SameRes.refl w) fun k f => by simp
+
+theorem compactMem_res (w : World) (q : Cq) (clen : Nat) : CStep w q (compactMem w q clen) := by
+  unfold compactMem
+  split
+  · rename_i d off cap rest hc
+    dsimp only
+    have key : ∀ (w1 : World) (data : Bytes) (o c : Nat) (need : Nat), SameRes w w1 →
+        CStep w q ((cmLoop w1 data o c rest need).1, { q with chunks := (cmLoop w1 data o c rest need).2 }) := by
+      intro w1 data o c need hs
+      have h0 : Conserve w q.chunks w1 rest := by
+        rw [hc]
+        exact Conserve.of_csum hs fun k f => by simp
+      exact h0.trans (cmLoop_res w1 data o c rest need)
+    split
+    · exact Conserve.refl w _
+    · split
+      · split
+        · exact key w _ _ _ _ (SameRes.refl w)
+        · exact key w _ _ _ _ (SameRes.refl w)
+      · exact key _ _ _ _ _ ((acquire_res w (clen + 1)).trans (release_mem_res _ d off cap))
+  · exact Conserve.refl w _
+
+/-- duplicating `n` bytes of a chunk: a file chunk's descriptor is dup()ed -/
+theorem dupFile_res (w : World) (q : Cq) (fid off len n : Nat) (fd : Fd) :
+    Conserve w q.chunks (if fd.isOpen = true then w.openFd fid else w)
+      (pushChunk q (.file fid off len false fd) n).chunks := by
+  intro k f
+  rw [csum_pushChunk, cres_file]
+  cases hfd : fd.isOpen <;> cases k <;> simp [wres_openFd] <;> split <;> omega
+
+theorem stealPartial_res (w : World) (dest : Cq) (c : Chunk) (n : Nat) :
+    CStep w dest (stealPartial w dest c n) := by
+  cases c with
+  | mem d off cap => exact appendMem_res w dest _
+  | file fid off len t fd =>
+    simp only [stealPartial]
+    split
+    · exact dupFile_res w dest fid off (off + n) n fd
+    · exact Conserve.refl w _
+
+theorem moveChunk_res (w : World) (dest : Cq) (c : Chunk) :
+    Conserve w (dest.chunks ++ [c]) (moveChunk w dest c).1 (moveChunk w dest c).2.chunks := by
+  unfold moveChunk
+  split
+  · exact Conserve.of_csum (SameRes.refl w) fun k f => by simp [pushChunk]
+  · have := (release_conserve w c).frame_left dest.chunks
+    simpa using this
+
+theorem stealLoop_res (w : World) (dest : Cq) (cs : List Chunk) (len : Nat) :
+    Conserve w (dest.chunks ++ cs) (stealLoop w dest cs len).1
+      ((stealLoop w dest cs len).2.1.chunks ++ (stealLoop w dest cs len).2.2.1) := by
+  fun_induction stealLoop w dest cs len with
+  | case1 w dest len => exact Conserve.refl w _
+  | case2 w dest c rest len hge h0 =>
+    have := (moveChunk_res w dest c).frame_right rest
+    simpa using this
+  | case3 w dest c rest len hge h0 w' dest' cs' moved heq ih =>
+    rw [heq] at ih
+    have h1 := (moveChunk_res w dest c).frame_right rest
+    simp only [List.append_assoc, List.singleton_append] at h1
+    exact h1.trans ih
+  | case4 w dest c rest len hlt =>
+    have h1 : Conserve w (dest.chunks ++ (c :: rest)) (stealPartial w dest c len).1
+        ((stealPartial w dest c len).2.chunks ++ (c :: rest)) := (stealPartial_res w dest c len).frame_right _
+    refine h1.trans (Conserve.of_csum (SameRes.refl _) fun k f => ?_)
+    cases c <;> simp [Chunk.adv, cres_file]
+
+theorem steal_res (w : World) (dest src : Cq) (len : Nat) :
+    Conserve w (dest.chunks ++ src.chunks) (steal w dest src len).1
+      ((steal w dest src len).2.1.chunks ++ (steal w dest src len).2.2.chunks) := by
+  unfold steal
+  split
+  rename_i w' dest' cs moved heq
+  have h := stealLoop_res w dest src.chunks len
+  rw [heq] at h
+  exact h
+
+theorem peekChunk_res {w : World} {n : Nat} {acc : Bytes} {c : Chunk} {w1 : World} {c1 : Chunk}
+    {acc1 : Bytes} {ok : Bool} (h : peekChunk w n acc c = (w1, c1, acc1, ok)) :
+    Conserve w [c] w1 [c1] := by
+  cases c with
+  | mem d off cap =>
+    simp only [peekChunk, Prod.mk.injEq] at h
+    obtain ⟨rfl, rfl, rfl, rfl⟩ := h
+    exact Conserve.refl w _
+  | file fid off len t fd =>
+    simp only [peekChunk] at h
+    have hopen : ∀ w2 fd2 b, (if fd.isOpen = true then (w, fd, true) else openChunk w fid len t) = (w2, fd2, b) →
+        Conserve w [.file fid off len t fd] w2 [.file fid off len t fd2] := by
+      intro w2 fd2 b he
+      split at he
+      · rename_i hopen
+        simp only [Prod.mk.injEq] at he
+        obtain ⟨rfl, rfl, _⟩ := he
+        exact Conserve.refl w _
+      · rename_i hclosed
+        unfold openChunk at he
+        split at he
+        · simp only [Prod.mk.injEq] at he
+          obtain ⟨rfl, rfl, _⟩ := he
+          intro k f
+          simp only [csum_cons, csum_nil, cres_file]
+          cases k <;> simp_all [Fd.isOpen]
+        · dsimp only at he
+          have hfd2 : fd2 = .ro ∧ w2 = w.openFd fid := by
+            split at he <;> (simp only [Prod.mk.injEq] at he; exact ⟨he.2.1.symm, he.1.symm⟩)
+          obtain ⟨rfl, rfl⟩ := hfd2
+          intro k f
+          simp only [csum_cons, csum_nil, cres_file, wres_openFd]
+          cases k <;> simp_all [Fd.isOpen] <;> split <;> omega
+    split at h
+    · rename_i w2 fd2 heq
+      simp only [Prod.mk.injEq] at h
+      obtain ⟨rfl, rfl, rfl, rfl⟩ := h
+      exact hopen _ _ _ heq
+    · rename_i w2 fd2 heq
+      have := hopen _ _ _ heq
+      split at h
+      · simp only [Prod.mk.injEq] at h
+        obtain ⟨rfl, rfl, rfl, rfl⟩ := h
+        exact this
+      · split at h <;> (simp only [Prod.mk.injEq] at h; obtain ⟨rfl, rfl, rfl, rfl⟩ := h; exact this)
+
+theorem peekLoop_res (w : World) (n : Nat) (acc : Bytes) (cs : List Chunk) :
+    Conserve w cs (peekLoop w n acc cs).1 (peekLoop w n acc cs).2.1 := by
+  fun_induction peekLoop w n acc cs with
+  | case1 w acc => exact Conserve.refl w _
+  | case2 w acc c rest w1 c' acc1 heq =>
+    have := (peekChunk_res heq).frame_right rest
+    simpa using this
+  | case3 w acc c rest w1 c' acc1 heq hn =>
+    have := (peekChunk_res heq).frame_right rest
+    simpa using this
+  | case4 w acc c rest w1 c' acc1 heq hn w2 rest2 acc2 ok heq2 ih =>
+    rw [heq2] at ih
+    have h1 := (peekChunk_res heq).frame_right rest
+    have h2 : Conserve w1 ([c'] ++ rest) w2 ([c'] ++ rest2) := ih.frame_left [c']
+    exact h1.trans h2
+
+theorem peekData_res (w : World) (q : Cq) (n : Nat) :
+    CStep w q ((peekData w q n).1, (peekData w q n).2.1) := by
+  unfold peekData
+  split
+  rename_i w1 cs acc ok heq
+  have h := peekLoop_res w n [] q.chunks
+  rw [heq] at h
+  exact h
+
+theorem readData_res {w : World} {q : Cq} {n : Nat} {w' : World} {q' : Cq} {r : Option Bytes}
+    (h : readData w q n = (w', q', r)) : CStep w q (w', q') := by
+  unfold readData at h
+  split at h
+  rename_i w1 q1 acc ok heq
+  have hp := peekData_res w q n
+  rw [heq] at hp
+  split at h
+  · simp only [Prod.mk.injEq] at h
+    obtain ⟨rfl, rfl, rfl⟩ := h
+    exact hp
+  · simp only [Prod.mk.injEq] at h
+    obtain ⟨rfl, rfl, rfl⟩ := h
+    exact Conserve.trans hp (markWritten_res w1 q1 n)
+
+theorem readSquash_res {w : World} {q : Cq} {w' : World} {q' : Cq} {ok : Bool}
+    (h : readSquash w q = (w', q', ok)) : CStep w q (w', q') := by
+  unfold readSquash at h
+  split at h
+  · simp only [Prod.mk.injEq] at h
+    obtain ⟨rfl, rfl, rfl⟩ := h
+    exact Conserve.refl w _
+  · split at h
+    rename_i w1 cap ha
+    have hs1 := acquire_res w (q.length.toNat + 1)
+    rw [ha] at hs1
+    have hp := peekData_res w1 q q.length.toNat
+    split at h
+    · rename_i w2 q2 acc heq
+      rw [heq] at hp
+      simp only [Prod.mk.injEq] at h
+      obtain ⟨rfl, rfl, rfl⟩ := h
+      exact ((hs1.conserve q.chunks).trans hp).trans ((release_mem_res w2 [] 0 cap).conserve _)
+    · rename_i w2 q2 acc heq
+      rw [heq] at hp
+      simp only [Prod.mk.injEq] at h
+      obtain ⟨rfl, rfl, rfl⟩ := h
+      refine ((hs1.conserve q.chunks).trans hp).trans ?_
+      refine (releaseAll_conserve w2 q2.chunks).trans (Conserve.of_csum (SameRes.refl _) fun k f => by simp)
+
+theorem copyRange_res (w : World) (dst : Cq) (c : Chunk) (off n : Nat) :
+    CStep w dst (copyRange w dst c off n) := by
+  cases c with
+  | mem d coff cap => exact appendMem_res w dst _
+  | file fid coff len t fd => exact dupFile_res w dst fid _ _ n fd
+
+theorem rangeLoop_res (w : World) (dst : Cq) (cs : List Chunk) (off len : Nat) :
+    CStep w dst (rangeLoop w dst cs off len) := by
+  fun_induction rangeLoop w dst cs off len with
+  | case1 w dst off len => exact Conserve.refl w _
+  | case2 w dst c rest off => exact Conserve.refl w _
+  | case3 w dst c rest off len h0 hge ih => exact ih
+  | case4 w dst c rest off len h0 hlt ih => exact Conserve.trans (copyRange_res w dst c off _) ih
+
+theorem reset_res (w : World) (q : Cq) : CStep w q (reset w q) := releaseAll_conserve w q.chunks
+
+/-! ### temp files -/
+
+theorem wres_createTemp (k : Bool) (w : World) (dir f : Nat) :
+    wres k (createTemp w dir).1 f = wres k w f + (if w.nfiles = f then 1 else 0) := by
+  by_cases h : f = w.nfiles
+  · subst h; cases k <;> simp [wres, createTemp, World.addFile]
+  · have h' : ¬ w.nfiles = f := fun e => h e.symm
+    cases k <;> simp [wres, createTemp, World.addFile, h, h']
+
+theorem createTemp_res (w : World) (dir : Nat) (cs : List Chunk) :
+    Conserve w cs (createTemp w dir).1 (cs ++ [.file (createTemp w dir).2 0 0 true .rw]) := by
+  intro k f
+  rw [wres_createTemp, csum_append]
+  simp only [csum_cons, csum_nil, cres_file, createTemp]
+  cases k <;> simp [Fd.isOpen] <;> split <;> omega
+
+theorem mkstempDirs_res {fuel : Nat} {w : World} {idx : Nat} {w' : World} {idx' : Nat} {r : Option Nat}
+    (cs : List Chunk) (h : mkstempDirs fuel w idx = (w', idx', r)) :
+    Conserve w cs w' (match r with | some fid => cs ++ [.file fid 0 0 true .rw] | none => cs) := by
+  induction fuel generalizing w idx with
+  | zero =>
+    simp only [mkstempDirs, Prod.mk.injEq] at h
+    obtain ⟨rfl, rfl, rfl⟩ := h
+    exact Conserve.refl w cs
+  | succ fuel ih =>
+    simp only [mkstempDirs] at h
+    split at h
+    · have hp := (popM_res w).conserve cs
+      split at h
+      · exact hp.trans (ih h)
+      · simp only [Prod.mk.injEq] at h
+        obtain ⟨rfl, rfl, rfl⟩ := h
+        exact hp.trans (createTemp_res (popM w).1 idx cs)
+    · simp only [Prod.mk.injEq] at h
+      obtain ⟨rfl, rfl, rfl⟩ := h
+      exact Conserve.refl w cs
+
+theorem newTempfile_res {w : World} {q : Cq} {w' : World} {q' : Cq} {ok : Bool}
+    (h : newTempfile w q = (w', q', ok)) : CStep w q (w', q') := by
+  unfold newTempfile at h
+  split at h
+  · split at h
+    · rename_i w1 idx fid heq
+      have hm := mkstempDirs_res q.chunks heq
+      simp only [Prod.mk.injEq] at h
+      obtain ⟨rfl, rfl, rfl⟩ := h
+      exact hm
+    · rename_i w1 idx heq
+      have hm := mkstempDirs_res q.chunks heq
+      simp only [Prod.mk.injEq] at h
+      obtain ⟨rfl, rfl, rfl⟩ := h
+      exact hm
+  · split at h
+    rename_i w1 fails hpm
+    have hp := (popM_res w).conserve q.chunks
+    rw [hpm] at hp
+    split at h
+    · simp only [Prod.mk.injEq] at h
+      obtain ⟨rfl, rfl, rfl⟩ := h
+      exact hp
+    · split at h
+      rename_i w2 fid hct
+      have hc := createTemp_res w1 0 q.chunks
+      rw [hct] at hc
+      simp only [Prod.mk.injEq] at h
+      obtain ⟨rfl, rfl, rfl⟩ := h
+      exact hp.trans hc
+
+theorem closeLast_res {w : World} {q : Cq} {fid off len : Nat} {t : Bool} {fd : Fd}
+    (hl : q.chunks.getLast? = some (.file fid off len t fd)) (ho : fd.isOpen = true) :
+    Conserve w q.chunks (w.closeFd fid) (setLast q.chunks (.file fid off len t .none)) := by
+  intro k f
+  rw [csum_setLast k f _ hl, wres_closeFd, cres_file, cres_file]
+  by_cases hf : fid = f <;> cases k <;> simp [Fd.isOpen, ho, hf] <;> omega
+
+theorem getAppendTempfile_res {w : World} {q : Cq} {w' : World} {q' : Cq} {ok : Bool}
+    (h : getAppendTempfile w q = (w', q', ok)) : CStep w q (w', q') := by
+  unfold getAppendTempfile at h
+  split at h
+  · rename_i fid off len fd hl
+    split at h
+    · rename_i ho
+      split at h
+      · simp only [Prod.mk.injEq] at h
+        obtain ⟨rfl, rfl, rfl⟩ := h
+        exact Conserve.refl w _
+      · exact Conserve.trans (closeLast_res hl ho) (newTempfile_res h)
+    · exact newTempfile_res h
+  · exact newTempfile_res h
+
+theorem bumpDir_chunks (w : World) (q : Cq) (e : Bool) : (bumpDir w q e).1.chunks = q.chunks := by
+  unfold bumpDir; split <;> rfl
+
+theorem dropOrCloseLast_res (w : World) (q : Cq) : CStep w q (dropOrCloseLast w q) := by
+  unfold dropOrCloseLast
+  split
+  · rename_i c hl
+    split
+    · exact removeEmpty_res w q
+    · cases c with
+      | mem d off cap => exact Conserve.refl w _
+      | file fid off len t fd =>
+        dsimp only
+        split
+        · rename_i ho
+          exact closeLast_res hl ho
+        · exact Conserve.refl w _
+  · exact Conserve.refl w _
+
+theorem tempfileErr_res {w : World} {q : Cq} {e : Bool} {w' : World} {q' : Cq} {r : Bool}
+    (h : tempfileErr w q e = (w', q', r)) : CStep w q (w', q') := by
+  unfold tempfileErr at h
+  split at h
+  rename_i w1 q1 heq
+  simp only [Prod.mk.injEq] at h
+  obtain ⟨rfl, rfl, rfl⟩ := h
+  have := dropOrCloseLast_res w (bumpDir w q e).1
+  rw [heq] at this
+  unfold CStep at this ⊢
+  rw [bumpDir_chunks] at this
+  exact this
+
+theorem writeGrow_res (w : World) (q : Cq) (d : Bytes) (n : Nat) :
+    Conserve w q.chunks (writeLast w q d) (growLast q n).chunks := by
+  unfold writeLast growLast
+  split
+  · rename_i fid off len t fd hl
+    refine Conserve.of_csum (pwrite_res w fid len d) fun k f => ?_
+    simp only
+    rw [csum_setLast k f _ hl, cres_file, cres_file]
+    omega
+  · exact Conserve.refl w _
+
+theorem mtLoop_res (fuel : Nat) (w : World) (q : Cq) (d : Bytes) :
+    CStep w q ((mtLoop fuel w q d).1, (mtLoop fuel w q d).2.1) := by
+  fun_induction mtLoop fuel w q d with
+  | case1 w q d => exact Conserve.refl w _
+  | case2 fuel w q d w1 q1 hg => exact getAppendTempfile_res hg
+  | case3 fuel w q d w1 q1 hg h0 => exact getAppendTempfile_res hg
+  | case4 fuel w q d w1 q1 hg h0 p he =>
+    exact Conserve.trans (getAppendTempfile_res hg)
+      (((popW_res w1).conserve _).trans (writeGrow_res p.1 q1 d d.length))
+  | case5 fuel w q d w1 q1 hg h0 p a he hge =>
+    exact Conserve.trans (getAppendTempfile_res hg)
+      (((popW_res w1).conserve _).trans (writeGrow_res p.1 q1 d d.length))
+  | case6 fuel w q d w1 q1 hg h0 p a he hlt ih =>
+    exact Conserve.trans (getAppendTempfile_res hg)
+      ((((popW_res w1).conserve _).trans (writeGrow_res p.1 q1 (d.take a) a)).trans ih)
+  | case7 fuel w q d w1 q1 hg h0 p he ih =>
+    exact Conserve.trans (getAppendTempfile_res hg) (((popW_res w1).conserve _).trans ih)
+  | case8 fuel w q d w1 q1 hg h0 p he w2 q2 ht ih =>
+    exact Conserve.trans (getAppendTempfile_res hg)
+      ((((popW_res w1).conserve _).trans (tempfileErr_res ht)).trans ih)
+  | case9 fuel w q d w1 q1 hg h0 p he w2 q2 ht =>
+    exact Conserve.trans (getAppendTempfile_res hg) (((popW_res w1).conserve _).trans (tempfileErr_res ht))
+  | case10 fuel w q d w1 q1 hg h0 p he w2 q2 ht ih =>
+    exact Conserve.trans (getAppendTempfile_res hg)
+      ((((popW_res w1).conserve _).trans (tempfileErr_res ht)).trans ih)
+  | case11 fuel w q d w1 q1 hg h0 p he w2 q2 ht =>
+    exact Conserve.trans (getAppendTempfile_res hg) (((popW_res w1).conserve _).trans (tempfileErr_res ht))
+
 end LtVerif.Cq
